@@ -31,6 +31,9 @@ type Case struct {
 	Harness string   `json:"harness"`
 	Nondets []Nondet `json:"nondets"`
 	Tier    int      `json:"tier"`
+	// Repeat: run up to this many times until a failure or panic shows (Go's
+	// map iteration order is random; the executor explores one fixed order).
+	Repeat int `json:"repeat"`
 }
 
 type Result struct {
@@ -147,13 +150,27 @@ func RunReplay(harnesses map[string]func()) error {
 	var out []Result
 	for i := range cases {
 		c := &cases[i]
-		r := &Result{Harness: c.Harness}
+		var r *Result
 		f := harnesses[c.Harness]
 		if f == nil {
-			r.Diverged = "no such harness in this package"
-			out = append(out, *r)
+			out = append(out, Result{Harness: c.Harness, Diverged: "no such harness in this package"})
 			continue
 		}
+		for attempt := 0; attempt == 0 || attempt < c.Repeat; attempt++ {
+			r = runCase(c, f)
+			if len(r.Failures) > 0 || r.Panic != "" {
+				break
+			}
+		}
+		out = append(out, *r)
+	}
+	b, _ := json.MarshalIndent(out, "", " ")
+	return os.WriteFile(os.Getenv("VERIF_REPLAY_OUT"), b, 0o644)
+}
+
+func runCase(c *Case, f func()) *Result {
+	r := &Result{Harness: c.Harness}
+	{
 		cur, pos, res, tier = c, 0, r, c.Tier
 		func() {
 			defer func() {
@@ -174,8 +191,6 @@ func RunReplay(harnesses map[string]func()) error {
 			}
 		}()
 		cur, res = nil, nil
-		out = append(out, *r)
 	}
-	b, _ := json.MarshalIndent(out, "", " ")
-	return os.WriteFile(os.Getenv("VERIF_REPLAY_OUT"), b, 0o644)
+	return r
 }
